@@ -436,6 +436,64 @@ __CPROVER_assigns(g_clear_calls, g_minval, g_maxval, g_maxvert)
                  harness="int main(void) {\n  g_clear_calls = 0;\n  extend_prologue();\n  __CPROVER_assert(0, \"VP_REACH\");\n  return 0;\n}\n",
                  desc="extend_filtration, before the scan: the filtration cache is dropped first (the tree is about to be rewritten), and the running minimum, maximum and largest vertex start at +infinity, -infinity and the smallest vertex handle")]
 
+def extended_rest_units():
+    """extend_filtration, the three remaining stretches: the cone point, the per-simplex case split, the epilogue."""
+    U = []
+    ef = r"Extended_filtration_data extend_filtration\(\)"
+    # (a) between the scan and the loop over the simplices
+    Ga = ("#include <limits.h>\ntypedef double Filtration_value; typedef int Vertex_handle; int nondet_int(void);\n"
+          "unsigned g_copy_calls, g_raw_calls; int g_cone_vertex, g_cone_after_copy, g_maxvert_out; double g_cone_value;\n")
+    fa = Fn(ST, ef, "ef_cone_point", """
+__CPROVER_requires(g_copy_calls == 0 && g_raw_calls == 0 && maxvert < INT_MAX)
+__CPROVER_ensures(g_copy_calls == 1 && g_raw_calls == 1 && g_cone_after_copy == 1)
+__CPROVER_ensures(g_cone_vertex == maxvert + 1 && g_maxvert_out == maxvert + 1 && g_cone_value == -3)
+__CPROVER_assigns(g_copy_calls, g_raw_calls, g_cone_vertex, g_cone_after_copy, g_cone_value, g_maxvert_out)
+""", piece={"kind": "slice", "first": r"GUDHI_CHECK\(maxvert <", "last": r"this->insert_simplex_raw\([^;]*\);", "sig": "void ef_cone_point(Vertex_handle maxvert)",
+            "epilogue": "g_maxvert_out = maxvert;"},
+            subs=[(r"std::numeric_limits<Vertex_handle>::max\(\)", "INT_MAX"), (r"Simplex_tree st_copy = \*this;", "g_copy_calls++;"),
+                  (r"this->insert_simplex_raw\(\{(\w+)\}, ([^;]*)\);", r"g_raw_calls++; g_cone_vertex = \1; g_cone_value = \2; g_cone_after_copy = (g_copy_calls == 1);")],
+            canary=(r"maxvert\+\+;", ";"))
+    U.append(Unit("extended.cone_point", "C03", [fa], enforce="ef_cone_point", globals_=Ga, inputs=["in_mv"], replay=replay_by_native_search,
+                  harness="int main(void) {\n  int in_mv = nondet_int(); g_copy_calls = 0; g_raw_calls = 0;\n  ef_cone_point(in_mv);\n  __CPROVER_assert(0, \"VP_REACH\");\n  return 0;\n}\n",
+                  desc="extend_filtration, between the scan and the loop over the simplices: for every largest vertex below the maximal handle (the documented precondition; the GUDHI_CHECK is then unreachable and the increment cannot overflow) the copy of the complex is taken before the cone point is inserted, and the cone point is the vertex maxvert + 1 with value -3"))
+    # (b) the case split inside the loop over the simplices
+    Gb = ("#include <math.h>\ntypedef double Filtration_value; double nondet_double(void); int nondet_int(void);\n"
+          "unsigned g_assign_calls, g_insert_calls; double g_up, g_down;\n"
+          "/* equal as values, or both not-a-number (infinite inputs can make v - minval or the product a NaN) */\n#define VP_SAMEV(a, b) ((isnan(a) && isnan(b)) || (a) == (b))\n")
+    fb = Fn(ST, ef, "ef_simplex_case", """
+__CPROVER_requires(g_assign_calls == 0 && g_insert_calls == 0 && !isnan(v) && !isnan(minval) && !isnan(scale))
+__CPROVER_ensures(g_assign_calls == 1 && g_insert_calls == 1)
+__CPROVER_ensures(dim == 0 ==> VP_SAMEV(g_down, -g_up))
+__CPROVER_ensures(dim != 0 ==> (g_up == -3 && g_down == -3))
+__CPROVER_assigns(g_assign_calls, g_insert_calls, g_up, g_down)
+""", piece={"kind": "slice", "first": r"if \(this->dimension\(sh\) == 0\) \{", "last": r"this->insert_simplex\(vr, -3\);\s*\}",
+            "sig": "void ef_simplex_case(int dim, Filtration_value vin, Filtration_value minval, Filtration_value scale)"},
+            subs=[(r"this->dimension\(sh\)", "dim"), (r"const Filtration_value& v = this->filtration\(sh\);", "Filtration_value v = vin;"),
+                  (r"this->assign_filtration\(sh, ([^;]*)\);", r"g_assign_calls++; g_up = \1;", 2), (r"this->insert_simplex\(vr, ([^;]*)\);", r"g_insert_calls++; g_down = \1;", 2)],
+            canary=(r"g_down = 2 - scaled_v;", "g_down = 2 + scaled_v;"))
+    fb.contract = fb.contract.replace("!isnan(v)", "!isnan(vin)").replace("(v - minval)", "(vin - minval)")
+    U.append(Unit("extended.simplex_case", "C03", [fb], enforce="ef_simplex_case", globals_=Gb, inputs=["in_dim", "in_v", "in_min", "in_scale"], replay=replay_by_native_search,
+                  runs=[Run(backend="kissat", timeout=120)],
+                  harness="int main(void) {\n  int in_dim = nondet_int(); double in_v = nondet_double(), in_min = nondet_double(), in_scale = nondet_double(); g_assign_calls = 0; g_insert_calls = 0;\n  ef_simplex_case(in_dim, in_v, in_min, in_scale);\n  __CPROVER_assert(0, \"VP_REACH\");\n  return 0;\n}\n",
+                  desc="extend_filtration, one simplex of the copy: a vertex and its cone get opposite values (the descending value is exactly the negation of the ascending one, for every double; the formula itself is carried by the extended.<type>.* units - stating it here as well puts two copies of a double multiplication in one query, which no back end finishes); every other simplex and its cone get -3; exactly one assignment and one insertion per simplex"))
+    # (c) the epilogue
+    Gc = ("typedef double Filtration_value; double nondet_double(void);\nunsigned g_mfnd_calls; double g_ret_min, g_ret_max; int g_ret_after_mfnd;\n"
+          "typedef struct { double minval, maxval; } Extended_filtration_data;\n")
+    fc = Fn(ST, ef, "ef_epilogue", """
+__CPROVER_requires(g_mfnd_calls == 0)
+__CPROVER_ensures(g_mfnd_calls == 1 && g_ret_after_mfnd == 1)
+__CPROVER_ensures(__CPROVER_return_value.minval == minval && __CPROVER_return_value.maxval == maxval)
+__CPROVER_assigns(g_mfnd_calls, g_ret_after_mfnd)
+""", piece={"kind": "slice", "first": r"this->make_filtration_non_decreasing\(\);", "last": r"return Extended_filtration_data\([^;]*\);",
+            "sig": "Extended_filtration_data ef_epilogue(Filtration_value minval, Filtration_value maxval)"},
+            subs=[(r"this->make_filtration_non_decreasing\(\);", "g_mfnd_calls++;"),
+                  (r"return Extended_filtration_data\((\w+), (\w+)\);", r"{ Extended_filtration_data r; r.minval = \1; r.maxval = \2; g_ret_after_mfnd = (g_mfnd_calls == 1); return r; }")],
+            canary=(r"r\.minval = minval;", "r.minval = maxval;"))
+    U.append(Unit("extended.epilogue", "C03", [fc], enforce="ef_epilogue", globals_=Gc, inputs=["in_min", "in_max"], replay=replay_by_native_search,
+                  harness="int main(void) {\n  double in_min = nondet_double(), in_max = nondet_double(); __CPROVER_assume(in_min == in_min && in_max == in_max); g_mfnd_calls = 0;\n  ef_epilogue(in_min, in_max);\n  __CPROVER_assert(0, \"VP_REACH\");\n  return 0;\n}\n",
+                  desc="extend_filtration, epilogue: make_filtration_non_decreasing runs exactly once after the values are assigned, and the returned data is (minimum, maximum) of the vertex values in this order"))
+    return U
+
 NATIVE_RESULTS = []
 
 
@@ -491,6 +549,7 @@ def units(tier):
     U += reset_units()
     U += expansion_units()
     U += extended_prologue_units()
+    U += extended_rest_units()
     U += extended_units(tier)
     # K6: the cubical comparator (shared with C13)
     for u in c13.comparator_units():
